@@ -27,7 +27,8 @@ def run(ctx):
         ctx.violation("C09/spec-W7c", f"specification violates {r.violated}", {"tlc": r.trace})
     sim = 3000 if thorough else 600
     suite = [("W7", 3, None, None), ("W7c", 4, None, 8000), ("W7c", 7, sim, None), ("W7r", 6, sim, None), ("W7", 6, sim, None),
-             ("W7d", 5, None, 8000), ("W7d", 7, sim, None), ("W9b", 4, None, 6000)]
+             ("W7d", 5, None, 8000), ("W7d", 7, sim, None), ("W9b", 4, None, 6000),
+             ("W5f", 3, None, 6000), ("W5f", 6, sim, None), ("W5c", 3, None, 4000)]
     if thorough:
         suite += [("W7", 4, None, 60000), ("W7c", 5, None, 60000)]
     hotcommon.run_suite(ctx, suite, hotcommon.classify_other("C09"))
